@@ -304,7 +304,7 @@ def same_parameter_suite(ctx, density=False):
     #     the one a fresh backend gives (class identity, arity and qubit order must not leak)
     infos = qgates.gate_infos()
     names = [nm for nm, inf in sorted(infos.items()) if inf.generic and inf.np and 1 <= inf.nq <= 3]
-    t = round(rng.choice([0.3, 1.1, -0.7, np.pi / 2]), 6)
+    t = round(rng.choice([0.3, 1.1, 0.7, np.pi / 2]), 6)  # inside every class's admissible range
     seq = []
     for nm in names:
         inf = infos[nm]
@@ -335,7 +335,151 @@ def same_parameter_suite(ctx, density=False):
     ctx.ob(ob, ok, "search", "" if ok else "a gate's matrix depends on gates built before it")
 
 
+# ---------------------------------------------------------------------------------------------
+# the caller's array, deep circuits, tiny control amplitudes
+
+
+def _gate_pool():
+    """(python source of a gate on a 3-qubit register, ops entry source)"""
+    return [
+        ("gates.H({a})", f"({_H}, [{{a}}])"),
+        ("gates.RY({a}, {t})", "(np.array([[np.cos({t} / 2), -np.sin({t} / 2)], [np.sin({t} / 2), np.cos({t} / 2)]]), [{a}])"),
+        ("gates.RZ({a}, {t})", "(np.diag([np.exp(-0.5j * {t}), np.exp(0.5j * {t})]), [{a}])"),
+        ("gates.S({a})", "(np.diag([1, 1j]), [{a}])"),
+        ("gates.CNOT({a}, {b})", "(np.array([[1, 0, 0, 0], [0, 1, 0, 0], [0, 0, 0, 1], [0, 0, 1, 0]]), [{a}, {b}])"),
+        ("gates.RX({a}, {t}).controlled_by({b})", "(ctrl(np.array([[np.cos({t} / 2), -1j * np.sin({t} / 2)], [-1j * np.sin({t} / 2), np.cos({t} / 2)]]), 1), [{b}, {a}])"),
+        ("gates.CU1({a}, {b}, {t})", "(np.diag([1, 1, 1, np.exp(1j * {t})]), [{a}, {b}])"),
+        ("gates.Y({a}).controlled_by({b}, {c})", "(ctrl(np.array([[0, -1j], [1j, 0]]), 2), [{b}, {c}, {a}])"),
+    ]
+
+
+def caller_array_suite(ctx, density=False):
+    """the initial state the caller hands in is the caller's: whatever the first gate is
+    (controlled_by with one / adjacent / scattered controls, plain, wide), the array is unchanged
+    afterwards and a second execution from it gives the same result"""
+    prop = "C02" if density else "C01"
+    ob = f"{prop}_search_caller_array"
+    rng = ctx.rng
+    ok = True
+    firsts = [
+        ("gates.RX(1, 0.7).controlled_by(0)", "(ctrl(RX, 1), [0, 1])"),
+        ("gates.RX(2, 0.7).controlled_by(0, 1)", "(ctrl(RX, 2), [0, 1, 2])"),
+        ("gates.RX(0, 0.7).controlled_by(2)", "(ctrl(RX, 1), [2, 0])"),
+        ("gates.RX(1, 0.7).controlled_by(3, 0)", "(ctrl(RX, 2), [3, 0, 1])"),
+        ("gates.RX(3, 0.7).controlled_by(0, 1, 2)", "(ctrl(RX, 3), [0, 1, 2, 3])"),
+        ("gates.CNOT(0, 1)", "(np.array([[1, 0, 0, 0], [0, 1, 0, 0], [0, 0, 0, 1], [0, 0, 1, 0]]), [0, 1])"),
+        ("gates.RX(2, 0.7)", "(RX, [2])"),
+        ("gates.Unitary(np.kron(RX, RX), 3, 1)", "(np.kron(RX, RX), [3, 1])"),
+        ("gates.fSim(1, 2, 0.4, 0.9).controlled_by(0)", "(ctrl(np.array([[1, 0, 0, 0], [0, np.cos(0.4), -1j * np.sin(0.4), 0], [0, -1j * np.sin(0.4), np.cos(0.4), 0], [0, 0, 0, np.exp(-0.9j)]]), 1), [0, 1, 2])"),
+    ]
+    for dtype in ("complex128", "complex64", "float64"):
+        for gsrc, osrc in firsts:
+            seed = rng.randint(0, 2**31)
+            body = (f"DENSITY = {density}\nRX = np.array([[np.cos(0.35), -1j * np.sin(0.35)], [-1j * np.sin(0.35), np.cos(0.35)]])\n"
+                    f"r = np.random.default_rng({seed})\npsi = r.normal(size=16) + (0 if '{dtype}' == 'float64' else 1j) * r.normal(size=16); psi = psi / np.linalg.norm(psi)\n"
+                    f"init = (dm_of(psi) if DENSITY else psi).astype('{dtype}')\nkeep = init.copy()\n"
+                    f"c = Circuit(4, density_matrix=DENSITY)\nc.add({gsrc})\nc.add(gates.H(3))\n"
+                    f"ops = [{osrc}, ({_H}, [3])]\n"
+                    "out1 = np.asarray(nb.execute_circuit(c, initial_state=init).state()).copy()\n"
+                    "same = np.array_equal(init, keep)\n"
+                    "out2 = np.asarray(nb.execute_circuit(c, initial_state=init).state()).copy()\n"
+                    "ref = ref_run(4, ops, keep.astype(complex) if not DENSITY else psi.astype(complex))\n"
+                    "ref = dm_of(ref_run(4, ops, psi.astype(complex))) if DENSITY else ref\n"
+                    f"tol = 1e-5 if '{dtype}' == 'complex64' else 1e-9\n"
+                    "d = max(np.abs(out1 - ref).max(), np.abs(out2 - ref).max())\n")
+            key = "caller-array:" + ("controlled" if "controlled_by" in gsrc else "plain")
+            ctx.case((key, gsrc, dtype))
+            ctx.stat(f"caller_array:{dtype}")
+            env = dict(ns())
+            try:
+                exec(body, env)  # noqa: S102
+            except Exception as e:  # noqa: BLE001
+                ok = False
+                _fail(ctx, key + ":raises", f"{type(e).__name__}: {e} ({gsrc}, {dtype})", body + "sys.exit(0)\n", ob)
+                continue
+            if not env["same"] or not env["d"] < env["tol"]:
+                ok = False
+                _fail(ctx, key, f"execution of [{gsrc}, H(3)] from the caller's {dtype} {'density matrix' if density else 'state vector'}: "
+                      f"caller's array unchanged = {env['same']}; deviation of the first / second result from the explicit contraction {env['d']:.3e}",
+                      body + "print(same, d)\nsys.exit(0 if same and d < tol else 1)\n", ob)
+    ctx.ob(ob, ok, "search", "" if ok else "the caller's initial state is modified or a second execution differs")
+
+
+def deep_suite(ctx, density=False):
+    """circuits of 70..300 queue entries on 3 qubits with generic complex coherences: the result is
+    the product of the documented matrices whatever the depth (a periodic clean-up step, a cache
+    flushed every so many gates … only shows beyond the depth of every test)"""
+    prop = "C02" if density else "C01"
+    ob = f"{prop}_search_deep"
+    rng = ctx.rng
+    ok = True
+    pool = _gate_pool()
+    for depth in ([70, 130, 200, 300] if ctx.thorough else [70, 130, 260]):
+        lines = [f"DENSITY = {density}", f"c = Circuit(3, density_matrix=DENSITY)", "ops = []"]
+        for _ in range(depth):
+            g, o = rng.choice(pool)
+            a, b, c_ = rng.sample(range(3), 3)
+            f = {"a": a, "b": b, "c": c_, "t": repr(round(rng.uniform(-3, 3), 5))}
+            lines.append(f"c.add({g.format(**f)}); ops.append({o.format(**f)})")
+        seed = rng.randint(0, 2**31)
+        body = "\n".join(lines) + (f"\nr = np.random.default_rng({seed})\npsi = r.normal(size=8) + 1j * r.normal(size=8); psi /= np.linalg.norm(psi)\n"
+                                   "init = dm_of(psi) if DENSITY else psi\n"
+                                   "out = np.asarray(nb.execute_circuit(c, initial_state=init.copy()).state())\n"
+                                   "ref = ref_run(3, ops, psi); ref = dm_of(ref) if DENSITY else ref\nd = np.abs(out - ref).max()\n")
+        ctx.case(("deep", depth, seed))
+        ctx.stat(f"deep:{depth}")
+        env = dict(ns())
+        try:
+            exec(body, env)  # noqa: S102
+        except Exception as e:  # noqa: BLE001
+            ok = False
+            _fail(ctx, "deep:raises", f"{type(e).__name__}: {e} (depth {depth})", body + "sys.exit(0)\n", ob)
+            continue
+        if not env["d"] < 1e-9:
+            ok = False
+            _fail(ctx, "deep:state", f"a 3-qubit circuit of {depth} gates executed from a generic complex state: deviation {env['d']:.3e} from the product of the documented matrices",
+                  body + "print(d)\nsys.exit(0 if d < 1e-9 else 1)\n", ob)
+    ctx.ob(ob, ok, "search", "" if ok else "deep circuits deviate")
+
+
+def tiny_control_suite(ctx, density=False):
+    """controlled gates on states whose 'all controls set' weight is tiny but not zero
+    (1e-6 … 1e-24): coherences scale like the square root of that weight, so skipping the gate
+    below a probability threshold is visible at 1e-12"""
+    prop = "C02" if density else "C01"
+    ob = f"{prop}_search_tiny_control"
+    rng = ctx.rng
+    ok = True
+    for eps in (1e-3, 2e-4, 1e-5, 1e-7, 1e-12):
+        for gsrc, osrc in (("gates.RX(1, 1.1).controlled_by(0)", "(ctrl(RX, 1), [0, 1])"), ("gates.CNOT(0, 2)", "(np.array([[1, 0, 0, 0], [0, 1, 0, 0], [0, 0, 0, 1], [0, 0, 1, 0]]), [0, 2])"),
+                           ("gates.Y(2).controlled_by(0, 1)", "(ctrl(np.array([[0, -1j], [1j, 0]]), 2), [0, 1, 2])"), ("gates.CU3(0, 1, 0.3, 0.8, -0.4)", "(ctrl(U3, 1), [0, 1])")):
+            body = (f"DENSITY = {density}\neps = {eps!r}\nRX = np.array([[np.cos(0.55), -1j * np.sin(0.55)], [-1j * np.sin(0.55), np.cos(0.55)]])\n"
+                    "U3 = np.array([[np.exp(-0.2j) * np.cos(0.15), -np.exp(-0.6j) * np.sin(0.15)], [np.exp(0.6j) * np.sin(0.15), np.exp(0.2j) * np.cos(0.15)]])\n"
+                    "ry = lambda t: np.array([[np.cos(t / 2), -np.sin(t / 2)], [np.sin(t / 2), np.cos(t / 2)]])\n"
+                    "c = Circuit(3, density_matrix=DENSITY)\nc.add(gates.RY(0, eps)); c.add(gates.RY(1, 0.9)); c.add(gates.RY(2, 1.3)); c.add(gates.RZ(1, 0.4))\n"
+                    f"c.add({gsrc})\nc.add(gates.H(0))\n"
+                    f"ops = [(ry(eps), [0]), (ry(0.9), [1]), (ry(1.3), [2]), (np.diag([np.exp(-0.2j), np.exp(0.2j)]), [1]), {osrc}, ({_H}, [0])]\n"
+                    "out = np.asarray(nb.execute_circuit(c).state())\nref = ref_run(3, ops); ref = dm_of(ref) if DENSITY else ref\nd = np.abs(out - ref).max()\n")
+            ctx.case(("tiny-control", eps, gsrc))
+            ctx.stat("tiny_control")
+            env = dict(ns())
+            try:
+                exec(body, env)  # noqa: S102
+            except Exception as e:  # noqa: BLE001
+                ok = False
+                _fail(ctx, "tiny-control:raises", f"{type(e).__name__}: {e}", body + "sys.exit(0)\n", ob)
+                continue
+            if not env["d"] < 1e-12:
+                ok = False
+                _fail(ctx, "tiny-control:state", f"[RY(0, {eps}), …, {gsrc}, H(0)]: the control is set with weight ≈ {(eps / 2) ** 2:.1e}; deviation {env['d']:.3e} from the product of the documented matrices",
+                      body + "print(d)\nsys.exit(0 if d < 1e-12 else 1)\n", ob)
+    ctx.ob(ob, ok, "search", "" if ok else "controlled gates are mis-applied when the control weight is tiny")
+
+
 def run_suites(ctx, density=False):
     qulacs_suite(ctx, density)
     wide_suite(ctx, density)
     same_parameter_suite(ctx, density)
+    caller_array_suite(ctx, density)
+    deep_suite(ctx, density)
+    tiny_control_suite(ctx, density)
